@@ -320,7 +320,7 @@ func (h *Handler) ProcessPacket(frame packet.Frame) error {
 
 func getClientID(p packet.DHCP4, options packet.DHCP4Options) []byte {
 	clientID, ok := options[packet.DHCP4OptionClientIdentifier]
-	if !ok {
+	if !ok || len(clientID) == 0 { // RFC 2132 9.14: minimum length 2; an empty identifier identifies nobody (and is dropped by the lease file)
 		clientID = p.CHAddr()
 	}
 	return clientID
